@@ -125,7 +125,7 @@ Definition misuse_ok (c : cfg) (p : pub) (o : op) (r : result) : bool :=
     | PReady => true
     | PClosed => is_disc r
     end
-  | ORecvText | ORecvData | ORecvMedia =>
+  | ORecvText | ORecvData | ORecvMedia | ORecvCancelled =>
     match p with
     | PHandshake => is_raise r XNotAllowed
     | _ => true        (* messages queued before the disconnect are still delivered *)
